@@ -1,8 +1,329 @@
 import GB.Base.Proto
+import GB.C11.Model
+import GB.Generated.Facts
+/-
+  C11 driver: trace validation.  One case line =
+     `<P|S> <scenario> <schedule> => <log tokens…>`
+  The log is the totally ordered list of events the Go harness observed while it ran the REAL router
+  under its one-goroutine-at-a-time scheduler (see harness/c11).  The driver
+    1. judges the log against the *specification predicates* of C11 using the log alone
+       (mixture / resurrection / re-watch / gap)                                   → `VIOL …`
+    2. replays the log through the model LTS (`GB.C11.step`), one macro step (= all statements up to
+       the next park point) per scheduler release, trying every order of the goroutines that were
+       woken by a mutex release in the same round                                  → `DIFF …`
+  Tokens:  r.<t>  s.<t>.U.<wid>.<name>.<ver>.<svcs>  s.<t>.C.<wid>  s.<t>.W.<name>  s.<t>.L.<k>  s.<t>.X
+           h.<t>.<n>  b.<t>  e.<t>.ok  e.<t>.w.<wid>  e.<t>.wf  e.<t>.m  e.<t>.h.<tv>.<sv>.<mv>  e.<t>.panic
+-/
 namespace GB.C11
 open GB GB.Proto
 
-/-- stub: replaced when the C11 slice is built -/
-def handle : Handler := fun _ _ => "BAD c11 unimplemented"
+inductive Ev
+  | rel (t : Nat)
+  | startU (t wid name ver : Nat) (svcs : List Nat)
+  | startC (t wid : Nat)
+  | startW (t name : Nat)
+  | startL (t k : Nat)
+  | startX (t : Nat)
+  | hook (t n : Nat)
+  | blocked (t : Nat)
+  | endOk (t : Nat)
+  | endW (t wid : Nat)
+  | endWF (t : Nat)
+  | endM (t : Nat)
+  | endH (t tv sv mv : Nat)
+  | endPanic (t : Nat)
+deriving Repr, Inhabited
+
+def Ev.thread : Ev → Nat
+  | .rel t => t | .startU t .. => t | .startC t _ => t | .startW t _ => t | .startL t _ => t | .startX t => t
+  | .hook t _ => t | .blocked t => t | .endOk t => t | .endW t _ => t | .endWF t => t | .endM t => t
+  | .endH t .. => t | .endPanic t => t
+
+def parseDigits (s : String) : Option (List Nat) :=
+  if s = "-" then some []
+  else s.toList.mapM (fun c => if '0' ≤ c ∧ c ≤ '9' then some (c.toNat - '0'.toNat) else none)
+
+def parseEv (tok : String) : Option Ev :=
+  match tok.splitOn "." with
+  | ["r", t] => do some (.rel (← t.toNat?))
+  | ["s", t, "U", w, n, v, ks] => do some (.startU (← t.toNat?) (← w.toNat?) (← n.toNat?) (← v.toNat?) (← parseDigits ks))
+  | ["s", t, "C", w] => do some (.startC (← t.toNat?) (← w.toNat?))
+  | ["s", t, "W", n] => do some (.startW (← t.toNat?) (← n.toNat?))
+  | ["s", t, "L", k] => do some (.startL (← t.toNat?) (← k.toNat?))
+  | ["s", t, "X"] => do some (.startX (← t.toNat?))
+  | ["h", t, n] => do some (.hook (← t.toNat?) (← n.toNat?))
+  | ["b", t] => do some (.blocked (← t.toNat?))
+  | ["e", t, "ok"] => do some (.endOk (← t.toNat?))
+  | ["e", t, "w", w] => do some (.endW (← t.toNat?) (← w.toNat?))
+  | ["e", t, "wf"] => do some (.endWF (← t.toNat?))
+  | ["e", t, "m"] => do some (.endM (← t.toNat?))
+  | ["e", t, "h", a, b, c] => do some (.endH (← t.toNat?) (← a.toNat?) (← b.toNat?) (← c.toNat?))
+  | ["e", t, "panic"] => do some (.endPanic (← t.toNat?))
+  | _ => none
+
+/-! ### 1. specification predicates over the log alone -/
+
+inductive OpRec
+  | upd (wid ver : Nat)
+  | close (wid : Nat)
+  | watch (name : Nat) (crAtStart : List Nat)
+  | look (k : Nat) (crAtStart : List Nat) (doneAtStart : List Nat)
+  | skip
+deriving Repr, Inhabited
+
+structure Issued where
+  ver : Nat
+  wid : Nat
+  name : Nat
+  svcs : List Nat
+deriving Repr, Inhabited
+
+structure SpecSt where
+  svc : Bool                          -- service router (conflicts keep the previous route)
+  wname : List (Nat × Nat) := []      -- impl watcher id → name
+  issued : List Issued := []          -- every UpdateDesc that has started
+  updDone : List Nat := []            -- versions whose UpdateDesc has returned
+  closeStarted : List Nat := []
+  closeRet : List Nat := []
+  cur : List (Nat × OpRec) := []
+  viol : Option String := none
+deriving Inhabited
+
+def SpecSt.setCur (st : SpecSt) (t : Nat) (o : OpRec) : SpecSt :=
+  { st with cur := (t, o) :: st.cur.filter (fun p => p.1 ≠ t) }
+
+def SpecSt.fail (st : SpecSt) (why : String) : SpecSt :=
+  match st.viol with
+  | some _ => st
+  | none => { st with viol := some why }
+
+/-- Conservative "must be routable" rule for a missed lookup of `k` (no false alarm by construction):
+    some watcher `w` whose Close had not started when the lookup ended has completed — before the
+    lookup started — an update listing `k`, every update ever started through `w` lists `k` and
+    carries `w`'s own name, and (service router only) no update of a differently named target ever listed `k`. -/
+def guaranteed (st : SpecSt) (k : Nat) (doneAtStart : List Nat) : Option Nat :=
+  let ok (w : Nat × Nat) : Bool :=
+    !st.closeStarted.contains w.1 &&
+    st.issued.any (fun u => u.wid = w.1 && doneAtStart.contains u.ver) &&
+    st.issued.all (fun u => u.wid ≠ w.1 || (u.svcs.contains k && u.name = w.2)) &&
+    (!st.svc || st.issued.all (fun u => u.name = w.2 || !u.svcs.contains k)) &&
+    -- no other watcher of the same name (an older, closed one) may still be around with in-flight updates
+    st.wname.all (fun w' => w'.1 = w.1 || w'.2 ≠ w.2)
+  (st.wname.find? ok).map (·.1)
+
+def specEv (st : SpecSt) : Ev → SpecSt
+  | .startU t wid name ver svcs =>
+    (st.setCur t (.upd wid ver)) |> fun st => { st with issued := ⟨ver, wid, name, svcs⟩ :: st.issued }
+  | .startC t wid => { st.setCur t (.close wid) with closeStarted := wid :: st.closeStarted }
+  | .startW t name => st.setCur t (.watch name st.closeRet)
+  | .startL t k => st.setCur t (.look k st.closeRet st.updDone)
+  | .startX t => st.setCur t .skip
+  | .endOk t =>
+    match st.cur.lookup t with
+    | some (.upd _ ver) => { st with updDone := ver :: st.updDone }
+    | some (.close wid) => { st with closeRet := wid :: st.closeRet }
+    | _ => st
+  | .endW t wid =>
+    match st.cur.lookup t with
+    | some (.watch name _) => { st with wname := (wid, name) :: st.wname }
+    | _ => st
+  | .endWF t =>
+    match st.cur.lookup t with
+    | some (.watch name cr) =>
+      -- every watcher ever created for the name had been closed (Close returned) before this Watch began
+      if st.wname.all (fun w => w.2 ≠ name || cr.contains w.1) then
+        st.fail s!"rewatch: Watch({name}) failed although Close of every watcher of that name had returned"
+      else st
+    | _ => st
+  | .endM t =>
+    match st.cur.lookup t with
+    | some (.look k _ doneAtStart) =>
+      match guaranteed st k doneAtStart with
+      | some w => st.fail s!"gap: lookup of service {k} missed although live watcher {w} lists it in every description"
+      | none => st
+    | _ => st
+  | .endH t tv sv mv =>
+    match st.cur.lookup t with
+    | some (.look k cr _) =>
+      if tv ≠ sv || tv ≠ mv then st.fail s!"mixture: lookup returned target of description {tv} with service {sv} method {mv}"
+      else match st.issued.find? (fun u => u.ver = tv) with
+        | none => st.fail s!"unknown description {tv}"
+        | some u =>
+          if !u.svcs.contains k then st.fail s!"mixture: description {tv} does not list service {k}"
+          else if cr.contains u.wid then
+            st.fail s!"resurrected: lookup started after Close of watcher {u.wid} returned but was routed to its description {tv}"
+          else st
+    | _ => st
+  | .endPanic t => st.fail s!"panic in thread {t}"
+  | _ => st
+
+/-! ### 2. replay through the model -/
+
+inductive Park
+  | hook (n : Nat) | blocked | done (r : Res) | stuck
+deriving Repr, DecidableEq, Inhabited
+
+/-- run thread `tid` until it parks: after executing a `hook`, when its next statement is disabled, or
+    when its program is finished -/
+def runToPark (P : Progs) : Nat → State → Tid → State × Park
+  | 0, s, _ => (s, .stuck)
+  | fuel + 1, s, tid =>
+    match s.threads tid with
+    | none => (s, .stuck)
+    | some th =>
+      match th.code with
+      | [] => (s, .done th.res)
+      | i :: _ =>
+        match step P s (.tau tid) with
+        | none => (s, .blocked)
+        | some s' =>
+          -- after an early return the yield points are not reached any more
+          match i, th.skip with
+          | .hook n, false => (s', .hook n)
+          | _, _ => runToPark P fuel s' tid
+
+structure Cand where
+  s : State
+  cur : List (Nat × Tid) := []     -- harness thread → model thread of its current operation
+  nops : List (Nat × Nat) := []    -- harness thread → number of operations started
+deriving Inhabited
+
+def Cand.tid (c : Cand) (t : Nat) : Option Tid := c.cur.lookup t
+
+def Cand.start (P : Progs) (c : Cand) (t : Nat) (op : Op) : Option Cand :=
+  let n := (c.nops.lookup t).getD 0
+  let tid := t * 64 + n
+  match step P c.s (.spawn tid op) with
+  | none => none
+  | some s' => some { s := s', cur := (t, tid) :: c.cur.filter (·.1 ≠ t), nops := (t, n + 1) :: c.nops.filter (·.1 ≠ t) }
+
+def matchEv (issued : List Issued) (p : Park) (e : Ev) : Bool :=
+  match p, e with
+  | .hook n, .hook _ m => n = m
+  | .blocked, .blocked _ => true
+  | .done .ok, .endOk _ => true
+  | .done (.watched w), .endW _ w' => w = w'
+  | .done .watchFail, .endWF _ => true
+  | .done .miss, .endM _ => true
+  | .done (.hit en), .endH _ tv _ _ =>
+    en.desc.ver = tv && (match issued.find? (fun u => u.ver = tv) with | some u => u.wid = en.owner | none => false)
+  | _, _ => false
+
+def showPark : Park → String
+  | .hook n => s!"hook{n}" | .blocked => "blocked" | .stuck => "stuck"
+  | .done .ok => "ok" | .done (.watched w) => s!"watched{w}" | .done .watchFail => "watchFail"
+  | .done .miss => "miss" | .done (.hit e) => s!"hit(v{e.desc.ver},w{e.owner})" | .done .pending => "pending"
+
+/-- advance thread `t` of candidate `c` one macro step and compare with the observed event -/
+def Cand.advance (P : Progs) (issued : List Issued) (c : Cand) (e : Ev) : Except String Cand :=
+  match c.tid e.thread with
+  | none => .error "no-op"
+  | some tid =>
+    let (s', p) := runToPark P 64 c.s tid
+    if matchEv issued p e then .ok { c with s := s' } else .error (showPark p)
+
+def insertAll (x : Ev) : List Ev → List (List Ev)
+  | [] => [[x]]
+  | y :: ys => (x :: y :: ys) :: (insertAll x ys).map (y :: ·)
+
+def perms : List Ev → List (List Ev)
+  | [] => [[]]
+  | x :: xs => (perms xs).flatMap (insertAll x)
+
+structure Round where
+  t : Nat
+  start : Option Ev := none
+  evs : List Ev := []
+deriving Inhabited
+
+def opOfStart : Ev → Option Op
+  | .startU _ w n v ks => some (.update w ⟨n, v, ks⟩)
+  | .startC _ w => some (.close w)
+  | .startW _ n => some (.watch n)
+  | .startL _ _ => none   -- filled by kind
+  | _ => none
+
+def Cand.round (P : Progs) (svc : Bool) (issued : List Issued) (c : Cand) (r : Round) : List Cand × String :=
+  -- 1. spawn
+  let c1 : Except String Cand :=
+    match r.start with
+    | none => .ok c
+    | some (.startX _) => .ok c
+    | some (.startL _ k) => (c.start P r.t (if svc then .lookupS k else .lookupP k)).elim (.error "spawn") .ok
+    | some ev => match opOfStart ev with
+      | some op => (c.start P r.t op).elim (.error "spawn") .ok
+      | none => .error "start"
+  match c1 with
+  | .error e => ([], e)
+  | .ok c1 =>
+    let own := r.evs.filter (fun e => e.thread = r.t)
+    let woken := r.evs.filter (fun e => e.thread ≠ r.t)
+    let c2 : Except String Cand :=
+      match own with
+      | [] => .ok c1
+      | [e] => c1.advance P issued e
+      | _ => .error "two own events"
+    match c2 with
+    | .error e => ([], s!"t{r.t}:model={e}")
+    | .ok c2 =>
+      if woken.length > 4 then ([], "too many woken") else
+      let res := (perms woken).map (fun order => order.foldlM (fun c e => c.advance P issued e) c2)
+      let oks := res.filterMap (fun x => match x with | .ok c => some c | .error _ => none)
+      let err := res.findSome? (fun x => match x with | .error e => some e | .ok _ => none)
+      (oks, s!"woken:model={err.getD ""}")
+
+def splitRounds : List Ev → List Round → List Round
+  | [], acc => acc.reverse
+  | .rel t :: rest, acc => splitRounds rest ({ t := t } :: acc)
+  | e :: rest, acc =>
+    match acc with
+    | [] => splitRounds rest acc
+    | r :: rs =>
+      let isStart := match e with
+        | .startU .. => true | .startC .. => true | .startW .. => true | .startL .. => true | .startX .. => true | _ => false
+      if isStart && e.thread = r.t then splitRounds rest ({ r with start := some e } :: rs)
+      else splitRounds rest ({ r with evs := r.evs ++ [e] } :: rs)
+
+def genProgs (svc : Bool) : Progs :=
+  let conv (l : List String) : List Instr := l.filterMap Instr.ofTag
+  { update := conv (if svc then Generated.c11ServiceUpdate else Generated.c11PatternUpdate)
+    close := conv (if svc then Generated.c11ServiceClose else Generated.c11PatternClose)
+    watch := conv (if svc then Generated.c11ServiceWatch else Generated.c11PatternWatch)
+    lookupP := conv Generated.c11PatternLookup
+    lookupS := conv Generated.c11ServiceLookup
+    storeSame := Generated.c11ServiceStoreSame
+    svc := svc }
+
+def replay (P : Progs) (svc : Bool) (issued : List Issued) : List Round → Nat → List Cand → Option String
+  | [], _, _ => none
+  | r :: rs, k, cands =>
+    let nexts := cands.map (fun c => c.round P svc issued r)
+    let alive := (nexts.flatMap (·.1)).take 32
+    if alive.isEmpty then
+      some s!"round={k} {(nexts.head?.map (·.2)).getD ""}"
+    else replay P svc issued rs (k + 1) alive
+
+def handle : Handler
+  | kind :: _, out =>
+    if kind ≠ "P" && kind ≠ "S" then "BAD kind" else
+    let svc := kind = "S"
+    match out.mapM parseEv with
+    | none => s!"BAD token"
+    | some evs =>
+      let st := evs.foldl specEv { svc := svc }
+      let nBlocked := (evs.filter (fun e => match e with | .blocked _ => true | _ => false)).length
+      let nHits := (evs.filter (fun e => match e with | .endH .. => true | _ => false)).length
+      let rounds := splitRounds evs []
+      -- non-trivial: some goroutine ran while another one was parked inside an operation
+      let interleaved := (rounds.zip (rounds.drop 1)).any (fun (a, b) =>
+        a.t ≠ b.t && a.evs.any (fun e => match e with | .hook .. => true | .blocked _ => true | _ => false))
+      let tags := (if interleaved then " nt" else "") ++ s!" b={kind}{if nBlocked > 0 then "-blocked" else ""}{if nHits > 0 then "-hit" else ""}"
+      match st.viol with
+      | some why => s!"VIOL {why}"
+      | none =>
+        match replay (genProgs svc) svc st.issued rounds 0 [{ s := init }] with
+        | some why => s!"DIFF model-rejects-trace {why}"
+        | none => s!"OK{tags}"
+  | _, _ => "BAD c11 line"
 
 end GB.C11
